@@ -24,6 +24,7 @@ def run(chk):
     e9.run_N23(chk)
     e3.run_L1(chk)
     e3.run_I7(chk)
+    e3.run_I9(chk)
     e3.run_L2(chk)
     e3.run_I2(chk)
     e3.run_I3(chk)
@@ -34,6 +35,10 @@ def run(chk):
 
     from . import e10
     e10.run_U(chk, ("yastn.tensor",), floor1=5, floor2=1)
+    # the resize / clear / info tables pair every memoised kernel with itself (a kernel rebuilt from another one's function only fails for the
+    # policy that uses it)
+    from .c16 import rule_K4, cached_functions
+    rule_K4(chk, chk.prog, cached_functions(chk.prog))
 
 MUTANTS = [
     ('diag keeps the pending permutation', 'yastn/tensor/_single.py', '    return a._replace(struct=struct, slices=slices, data=data, hfs=hfs, trans=None)\n\n\ndef remove_zero_blocks', '    return a._replace(struct=struct, slices=slices, data=data, hfs=hfs)\n\n\ndef remove_zero_blocks', 'I2'),
